@@ -7,7 +7,10 @@ import (
 	"os"
 	"runtime/debug"
 	"sort"
+	"strings"
 	"time"
+
+	"golang.org/x/tools/go/ssa"
 )
 
 type propFunc func(c *Ctx)
@@ -95,6 +98,31 @@ func run() (status int) {
 }
 
 func dumpDebug(w *World, what string) {
+	if strings.HasPrefix(what, "sym:") {
+		parts := strings.SplitN(what, ":", 3)
+		fn := w.Fn(parts[1], parts[2])
+		withClosures(fn, func(f *ssa.Function) {
+			fmt.Println("==", fnName(f))
+			for _, c := range callsIn(f) {
+				var as []string
+				if c.Common().IsInvoke() {
+					as = append(as, sym(c.Common().Value))
+				}
+				for _, a := range c.Common().Args {
+					as = append(as, sym(a))
+				}
+				fmt.Printf("  %s %s\n      %s\n", w.Pos(instrPos(c)), short(calleeName(c)), strings.Join(as, "\n      "))
+			}
+			for _, r := range returnsOf(f) {
+				var as []string
+				for _, v := range returnValues(r) {
+					as = append(as, sym(v))
+				}
+				fmt.Printf("  return %s: %s\n", w.Pos(instrPos(r)), strings.Join(as, " ; "))
+			}
+		})
+		return
+	}
 	switch what {
 	case "sql":
 		for _, s := range sqlSites(w) {
